@@ -20,6 +20,7 @@ EXPLANATION = ("Family rules over every subclass of Dense_/Sparse_ (computed): r
                "no self state but that memo; __getitem__ never falls off its end (CFG path check); LabelDense/LabelSparse "
                "use one index/key for feats, label and labeled; DropOne's len/getitem/iter agree on the dropped index.")
 EXPLANATION += " R8: all decode guards of the lazy rows are the same; R9: the 'no headers' marker of producer and consumer agree; R10: row filters are stateless."
+EXPLANATION += " R11: row equality hashes nothing; R12: header names resolve to their column after EncodeRows / DropRows (positions from the header map's values)."
 
 ROWS = "coba/pipes/rows.py"
 PRIM = "coba/primitives.py"
